@@ -20,15 +20,22 @@ def table(name):
     return deco
 
 
-def regenerate(names):
-    """Returns dict name -> None | error string."""
-    res = {}
-    for mod in ('tables_gates',):
+MODULES = ('tables_gates', 'tables_cliff', 'tables_misc')
+
+
+def load_generators():
+    for mod in MODULES:
         try:
             __import__('vf.' + mod)
         except ModuleNotFoundError as e:
             if 'vf.' + mod not in str(e):
                 raise
+
+
+def regenerate(names):
+    """Returns dict name -> None | error string."""
+    load_generators()
+    res = {}
     for n in names:
         try:
             text = REGISTRY[n]()
@@ -40,17 +47,17 @@ def regenerate(names):
     return res
 
 
-if __name__ == '__main__':
-    for mod in ('tables_gates',):
-        try:
-            __import__('vf.' + mod)
-        except ModuleNotFoundError as e:
-            if 'vf.' + mod not in str(e):
-                raise
-    names = sorted(REGISTRY) if sys.argv[1:] in ([], ['all']) else sys.argv[1:]
+def main(argv):
+    load_generators()
+    names = sorted(REGISTRY) if argv in ([], ['all']) else argv
     r = regenerate(names)
     bad = {k: v for k, v in r.items() if v}
     print('tables regenerated:', ', '.join(names) or '(none)')
     if bad:
         print('TABLE ERRORS', bad)
         sys.exit(1)
+
+
+if __name__ == '__main__':
+    from vf import tables as _t
+    _t.main(sys.argv[1:])
